@@ -327,7 +327,7 @@ func (w *World) genDevice(stream string, maxBytes int) kernel.DevCfg {
 	cfg.Chunks = w.genChunks(stream)
 	if w.t.Chance(stream, "dev.fail", 3, 10) {
 		cfg.ErrAt = w.t.Choose(stream, "dev.errat", maxBytes+8)
-		cfg.ErrKind = 1 + w.t.Choose(stream, "dev.errkind", 3)
+		cfg.ErrKind = 1 + w.t.Choose(stream, "dev.errkind", 4)
 		cfg.ErrWithData = w.t.Bool(stream, "dev.errdata")
 	}
 	return cfg
